@@ -2,6 +2,7 @@ import Holpy.C15.Model
 import Holpy.C15.Proofs.Basic
 import Holpy.C15.Proofs.Trace
 import Holpy.C15.Proofs.Replay
+import Holpy.C15.Proofs.ZChaff
 import Holpy.C15.Proofs.Trail
 import Holpy.C15.Proofs.Analyze
 import Holpy.C15.Proofs.NoCrash
@@ -22,6 +23,7 @@ import Holpy.C15.Proofs.Tseitin
 import Holpy.C15.Proofs.TseitinRewrite
 import Holpy.C15.Proofs.TseitinMain
 import Holpy.C15.Proofs.TseitinSequent
+import Holpy.C15.Proofs.TseitinInst
 /-! C15 helper lemmas; the parts live in `Holpy/C15/Proofs/*.lean`:
 `Basic` (membership in `dedup`/`resolution` results), `Trace` (the trace checker is sound),
 `Trail` (invariant of `assigns`, `unit_propagate`), `Analyze` (`analyze_conflict`), `NoCrash` (its assertion and `backtrack`'s indexing never fail),
